@@ -231,6 +231,9 @@ def cases(M):
         grp = r.choice(SAME_OFFSET_GROUPS)
         za, zb = r.sample(grp, 2)
         y, mo = r.randrange(1995, 2035), r.randrange(1, 13)
+        if j % 5 == 0:
+            # centuries (leap by the 400 rule or not) and the days around the end of February
+            y, mo = r.choice((2000, 2000, 2400, 1600, 2100, 1900, 2004)), r.choice((2, 2, 3))
         d1 = dt.date(y, mo, r.choice((1, 1, 2, cal.dim(y, mo), cal.dim(y, mo) - 1, 15)))
         d2 = d1 + dt.timedelta(days=r.choice((1, 27, 28, 29, 30, 31, 32, 59, 61, 90, 92, 365, 366)))
         if r.random() < 0.5:
